@@ -36,6 +36,8 @@ SCRIPTS = {
     'bulk_nodes_last': [('add_node', 1), ('add_node', 2), ('add_edge', 1, 2), ('add_nodes', [3])],
     'node_last': [('add_nodes', [1, 2]), ('add_edges', [(1, 2)], False), ('add_node', 3)],
     'reindex_nodes_last': [('add_node_nc', 1), ('add_node_nc', 2), ('add_node_nc', 3), ('add_edge_nc', 1, 2), ('commit',), ('reindex_edges',), ('reindex_nodes',)],
+    # parallel-road links (what connect_parallelroads writes for a pair of edges it finds parallel; its geometric test is not the subject)
+    'linked': [('add_nodes', [1, 2, 3]), ('add_edges', [(1, 2), (2, 3), (3, 1)], False), ('link', (1, 2), (3, 1))],
     'ignore_double': [('add_node', 1), ('add_node', 2), ('add_node_ignore', 1), ('add_edge', 1, 2), ('add_node', 3)],
 }
 
@@ -57,6 +59,12 @@ def apply_script(m, script, coords):
             m.add_edge(op[1], op[2], no_index=True, no_commit=True)
         elif k == 'add_edges':
             m.add_edges(op[1], no_index=op[2])
+        elif k == 'link':
+            c = m.db.cursor()
+            e1, e2 = tuple(op[1]).__hash__(), tuple(op[2]).__hash__()
+            c.execute('INSERT INTO close_edges(id1, id2) VALUES (?, ?)', (e1, e2))
+            c.execute('INSERT INTO close_edges(id1, id2) VALUES (?, ?)', (e2, e1))
+            m.db.commit()
         elif k == 'commit':
             m.db.commit()
         elif k == 'reindex_nodes':
@@ -235,7 +243,7 @@ def run_pickle(inst):
 
 def instances(tier):
     out = [('pickle', False), ('pickle', True)]
-    names = list(SCRIPTS) if tier == 'thorough' else ['single', 'bulk', 'deferred', 'bulk_noindex_last', 'deferred_commit_by_later_insert', 'mixed', 'bulk_nodes_last', 'node_last']
+    names = list(SCRIPTS) if tier == 'thorough' else ['single', 'bulk', 'deferred', 'bulk_noindex_last', 'deferred_commit_by_later_insert', 'mixed', 'bulk_nodes_last', 'node_last', 'linked']
     for s in names:
         for latlon in (False, True):
             for cycles in ((1, 2) if tier == 'thorough' or s in ('single', 'bulk') else (1,)):
@@ -257,7 +265,7 @@ def main(tier):
     from symx.common import fit_budget
     budget = fit_budget(len(instances(tier)), tier, 100, 100)
     res = run_instances(run_instance, [(i[:4] + (budget,) + i[5:]) if i[0] == 'sqlite' else i for i in instances(tier)])
-    rep.bounds = dict(map="3 integer-labelled nodes with symbolic coordinates, up to 3 directed edges", scripts=sorted(SCRIPTS) if tier == 'thorough' else "8 of the build scripts",
+    rep.bounds = dict(map="3 integer-labelled nodes with symbolic coordinates, up to 3 directed edges", scripts=sorted(SCRIPTS) if tier == 'thorough' else "9 of the build scripts",
                       flag="use_latlon False and True (spatial queries compared in the planar case; lat-lon with opaque trigonometry)",
                       cycles="1-2 reopen cycles", query="symbolic location and radius")
     rep.outside = ["rounding", "pyproj projections (not installed)", "rtree-indexed InMemMap files (rtree not installed)", "more than 3 nodes"]
